@@ -138,4 +138,4 @@ class SetFieldTransformation(PreprocessingTransformation):
 
     def apply(self, rule: SigmaRule | SigmaCorrelationRule) -> None:
         super().apply(rule)
-        rule.fields = self.fields
+        rule.fields = self.fields.copy()  # the rule gets its own list, later items change it in place
